@@ -7,14 +7,14 @@ import re
 
 ROOT = os.path.dirname(os.path.dirname(os.path.abspath(__file__)))
 rows = []
-for d in sorted(glob.glob(os.path.join(ROOT, "benign", "C*_b*"))):
+for d in sorted(glob.glob(os.path.join(ROOT, "benign", "C*_b*"))) + sorted(glob.glob(os.path.join(ROOT, "benign", "SH*_s*"))):
     rp = os.path.join(d, "result.json")
     if not os.path.exists(rp):
         continue
     r = json.load(open(rp))
     notes = open(os.path.join(d, "notes.md")).read() if os.path.exists(os.path.join(d, "notes.md")) else ""
     title = re.sub(r"[#*`|]", "", notes.strip().splitlines()[0]).strip() if notes.strip() else ""
-    title = re.sub(r"^C\d\d_b\d\s*[—:-]+\s*", "", title)
+    title = re.sub(r"^(C\d\d_b\d|SH[A-D]_s\d)\s*[—:-]+\s*", "", title)
     hist = r.get("history", [])
     first = hist[0].get("silent") if hist else r.get("silent")
     rows.append((r["name"], r["property"], title[:200], "silent" if first else "ALARM", "silent" if r.get("silent") else "ALARM"))
